@@ -1008,12 +1008,13 @@ WRAPPERS = [
 
 
 def fam_coupled(case):
-    n, mask, n1 = case
+    n, mask, n1 = case[:3]
+    directed = bool(case[3]) if len(case) > 3 else False
     from pyunicorn.core import GeoGrid, InteractingNetworks
     from pyunicorn.climate import CoupledClimateNetwork
     viol, excluded, sig = [], {}, []
     ev = 0
-    A = NR.adjacency_of(n, False, mask)
+    A = NR.adjacency_of(n, directed, mask)
 
     def grid(k, off):
         return GeoGrid(np.arange(3.), off + 40.0 * np.arange(k) / max(k, 1),
@@ -1021,7 +1022,7 @@ def fam_coupled(case):
     S = 0.9 * A + np.eye(n)
     c = CoupledClimateNetwork(grid(n1, 0.0), grid(n - n1, 40.0), S,
                               threshold=0.5, node_weight_type=None,
-                              silence_level=3)
+                              directed=directed, silence_level=3)
     c.silence_level = 3
     if not np.array_equal(c.adjacency, A):
         viol.append(V("CoupledClimateNetwork.adjacency:construction",
@@ -1081,9 +1082,13 @@ def fam_coupled(case):
             continue        # replaced by a wrapper with its own signature
         lists = (g1, g2) if kind == "pair" else (g1,)
         got = outcome(getattr(c, name), *lists)
-        ref = outcome(getattr(IN(adjacency=A, silence_level=3), name), *lists)
+        ref = outcome(getattr(IN(adjacency=A, directed=directed,
+                                 silence_level=3), name), *lists)
         ev += 1
-        if got[0] == "exc" and ref[0] == "ok":
+        if got[0] == "exc" and ref[0] == "exc":
+            k = "coupled: inherited method raises on both classes"
+            excluded[k] = excluded.get(k, 0) + 1
+        elif got[0] == "exc" and ref[0] == "ok":
             helper = "?"
             for h in ("cross_degree", "cross_path_lengths", "cross_closeness",
                       "cross_local_clustering", "internal_adjacency"):
@@ -1301,7 +1306,13 @@ def run(ctx):
         for (_, _, m) in iso(n, False):
             for n1 in range(1, n):
                 cases.append((n, m, n1))
-    ctx.explore("coupled", cases, desc="CoupledClimateNetwork wrappers")
+    # directed coupled networks (asymmetric similarity)
+    for n in (3, 4):
+        for (_, _, m) in iso(n, True):
+            for n1 in range(1, n):
+                cases.append((n, m, n1, True))
+    ctx.explore("coupled", cases, desc="CoupledClimateNetwork wrappers "
+                "(undirected iso(2..5), directed iso(3..4))")
     scale = _scale_cases(thorough)
     ctx.explore("scale", scale, chunk=1, desc="groups of 7..12 nodes in "
                 "unsorted order on structured graphs with 16..30 nodes; "
